@@ -114,14 +114,18 @@ CleanBuild(c) == CleanRec(c, TopoLayers(c), <<>>)
 
 (***************************************************************************)
 (* Blocked by failures: least set closed under "not started and some       *)
-(* direct upstream failed or is blocked".                                  *)
+(* direct upstream failed or is blocked".  A job in `through` (validly     *)
+(* skipped before the failure happened: it was never going to run, so the  *)
+(* failure did not prevent it from running) is itself blocked when a       *)
+(* direct upstream failed, but does not pass the blockage on - the         *)
+(* property leaves open whether its dependants still run.                  *)
 (***************************************************************************)
-RECURSIVE BlockedRec(_, _, _, _)
-BlockedRec(c, failed, started, acc) ==
+RECURSIVE BlockedRec(_, _, _, _, _)
+BlockedRec(c, failed, started, nopass, acc) ==
   LET more == {j \in Nodes(c) \ (acc \cup started \cup failed) :
-                  \E u \in Ups(c, j) : u \in failed \/ u \in acc}
-  IN IF more = {} THEN acc ELSE BlockedRec(c, failed, started, acc \cup more)
-Blocked(c, failed, started) == BlockedRec(c, failed, started, {})
+                  \E u \in Ups(c, j) : u \in failed \/ (u \in acc /\ u \notin nopass)}
+  IN IF more = {} THEN acc ELSE BlockedRec(c, failed, started, nopass, acc \cup more)
+Blocked(c, failed, started, nopass) == BlockedRec(c, failed, started, nopass, {})
 
 (* jobs with a failed ancestor *)
 RECURSIVE TaintRec(_, _, _)
